@@ -195,8 +195,15 @@ def reuse_case(cid, rng, cfg, imgs):
         # not depend on the object's past either.
         im2, b2 = rng.choice(imgs)
         ehsize = 52 if b2[4] == 1 else 64
-        k = rng.choice(["hdr", "hdr", "ident", "later", "badident"])
-        if k == "hdr":
+        k = rng.choice(["hdr", "hdr", "ident", "later", "badident", "shentsize", "shentsize"])
+        if k == "shentsize":
+            # an image whose section header entry size is too small: load_sections() gives up before creating any
+            # section (load() goes on to the segments); whatever sections the object held before must be gone
+            cut = bytearray(b2)
+            pos_ = 46 if b2[4] == 1 else 58
+            cut[pos_:pos_ + 2] = (8).to_bytes(2, "little" if b2[5] == 1 else "big")
+            cut = bytes(cut)
+        elif k == "hdr":
             cut = b2[:rng.randint(16, ehsize - 1)]
         elif k == "ident":
             cut = b2[:rng.randint(0, 15)]
